@@ -429,6 +429,9 @@ func checkC16(c *Case, s *Stats) error {
 			if err := concurrentArrays(c.Block, s); err != nil {
 				return err
 			}
+			if err := concurrentArrayReaders(c.Block, s); err != nil {
+				return err
+			}
 		}
 		return nil
 	}
